@@ -115,7 +115,7 @@ def jobs(tier, seed, excluded=()):
         from ..trees import edges
 
         trees = ["T01", "T02", "T03", "T04", "T05", "T05s", "T06", "T07", "T08", "T09", "T10", "T11", "T12", "T15"] + edges.ids()
-        budget, nparts, tmo = 600, 4, 400
+        budget, nparts, tmo = 300, 4, 250
         strlen = 3
     odom = Dom(int_max=dom.int_max, str_mode="cand", str_cands=["", "p", 'q"'], int_cands=["-3", "abc"], hex_cands=["0x1f", "1f", "zz"], float_cands=["5", "0.25", "nan"])
 
